@@ -63,6 +63,38 @@ func C19() int {
 		o1, o2 := filepath.Join(dir, "pass1.log"), filepath.Join(dir, "pass2.log")
 		fa := jb.f.Args(ji, "")
 		r1 := s.CLI(sut.Run{Args: append(append([]string{"redact"}, fa...), in, "-o", o1), Dir: dir})
+		if ji%3 == 0 && r1.Exit == 0 {
+			// calibrate: pad one input line so that its REDACTED line is exactly k×4096 bytes long — the
+			// second pass then reads a line that ends exactly on a reader-buffer boundary
+			if b1, err := os.ReadFile(o1); err == nil {
+				inLines, outLines := splitLines(files[jb.file]), splitLines(b1)
+				var objIn []int
+				for i, l := range inLines {
+					if _, e := jt.ParseObject(l); e == nil {
+						objIn = append(objIn, i)
+					}
+				}
+				if len(objIn) == len(outLines) && len(objIn) > 1 {
+					k := (ji / 3) % (len(objIn) - 1) // never the last line only: a line after it must survive too
+					L1 := len(outLines[k])
+					const pre = `,"padding":"`
+					target := ((L1+len(pre)+1)/4096 + 1 + (ji/3)%3) * 4096
+					need := target - L1 - len(pre) - 1
+					raw := bytes.TrimRight(inLines[objIn[k]], " \t\r")
+					if need >= 0 && target < 60000 && len(raw) > 2 && raw[len(raw)-1] == '}' && !bytes.Equal(bytes.TrimSpace(raw), []byte("{}")) {
+						padded := append(append(append([]byte{}, raw[:len(raw)-1]...), pre...), bytes.Repeat([]byte("p"), need)...)
+						padded = append(padded, '"', '}')
+						inLines[objIn[k]] = padded
+						calibrated := append(bytes.Join(inLines, []byte("\n")), '\n')
+						os.WriteFile(in, calibrated, 0o644)
+						r1 = s.CLI(sut.Run{Args: append(append([]string{"redact"}, fa...), in, "-o", o1), Dir: dir})
+						if b1c, _ := os.ReadFile(o1); len(splitLines(b1c)) == len(outLines) && len(splitLines(b1c)[k]) == target {
+							c.Count("files_with_an_output_line_of_exactly_k_x_4096_bytes", 1)
+						}
+					}
+				}
+			}
+		}
 		r2 := s.CLI(sut.Run{Args: append(append([]string{"redact"}, fa...), o1, "-o", o2), Dir: dir})
 		if r1.TimedOut || r2.TimedOut {
 			c.Inconclusive("watchdog fired")
